@@ -2,7 +2,7 @@
 # tools/runall.sh [tier] [ids...] — run checks sequentially, print one summary line each.
 tier=${1:-quick}; shift
 ids=${@:-$(python3 -c "import json; print(' '.join(c['property_id'] for c in json.load(open('/verif/MANIFEST.json'))['checks']))")}
-cd /verif
+cd "$(dirname "$0")/.."
 for id in $ids; do
   start=$(date +%s)
   out=$(VERIF_TIER=$tier timeout 3000 bin/check $id 2>&1)
